@@ -25,6 +25,8 @@ import WntrModel.Lemmas.AmlInv
 import WntrModel.Lemmas.AmlStruct
 import WntrModel.Lemmas.AmlReal
 import WntrModel.Lemmas.AmlCsr
+import WntrModel.Lemmas.AmlCsrIf
+import WntrModel.Lemmas.AmlRealFull
 import Mathlib.Analysis.Normed.Field.Lemmas
 
 namespace Wntr.Aml
@@ -367,9 +369,8 @@ example : (Model.run ratOps ({} : Model Rat)
 at natural constants is the monomial: for every expression built from variables, parameters, constants, `+ - * /`,
 negation and natural constant powers (`ratFrag`), at every point where no denominator vanishes, the function
 `x ↦ eval e [v := x]` has derivative `eval (D v e)`. Together with `reverseSd_is_derivative` the compiled Jacobian entry
-is the true partial derivative on this fragment. For `exp/log/sin/…/pow` with non-constant exponent, `abs`, `sign`,
-`if_else`, `D` is the textbook rule by construction (read off `Model/Rpn.lean`) but NOT connected to Mathlib's
-analytic derivative here. -/
+is the true partial derivative on this fragment, over ANY such field. The remaining operators are covered over ℝ by
+`D_is_analytic_derivative_real` (section 9). -/
 theorem D_is_analytic_derivative_rational {𝕜 : Type} [NontriviallyNormedField 𝕜] {O : Ops 𝕜} (L : LawfulOps O)
     (hpow : ∀ (x : 𝕜) (n : ℕ), O.pow x (O.ofRat n) = x ^ n) (env : Env 𝕜) (v : Nat) (e : Expr)
     (hf : ratFrag e = true) (hd : denomOk O env e) :
@@ -387,14 +388,13 @@ example : HasDerivAt
 
 /-! ## 6. CSR rows -/
 
-/-- **csr_rows_partial (plain constraints; the conditional rows are NOT proved).** After `set_structure`:
+/-- **csr_rows_partial (the plain-constraint half; the conditional half is `csr_rows_conditional`, both together
+`csr_rows`).** After `set_structure`:
 `evaluate` computes, for the `i`-th plain constraint in address order (`Constraint.index = i`,
 `set_structure_unique_indices`), that constraint's own function program on that constraint's own leaves;
 `evaluate_csr_jacobian` computes for row `i` that constraint's own Jacobian programs, one per referenced variable in
 address order, `col_ndx` holding those variables' `index` and `row_nnz` the prefix sums of the row lengths.
-Missing for the full statement: the same for `IfElseConstraint`s — the `condition_ndx` / `jac_ndx` strides of
-`findBranch` / `jacIfRows` are modelled (`Model/AmlModel.lean`) and compared with the C++ on every run, but no theorem
-relates them to the per-constraint programs. -/
+(Name kept from the round in which only this half was proved.) -/
 theorem csr_rows_partial {α : Type} (O : Ops α) (I : InfVals α) (e e' : Evaluator α)
     (h : e.setStructure = some e') :
     evalPlainRows O I e' e'.st.fnRpn 0 =
@@ -458,5 +458,84 @@ where the unselected branch's partial derivative is NaN/inf the compiled Jacobia
 right. NaN is outside the field model (`LawfulOps`); the defect is recorded in `known_findings.d/C15.json` with its
 minimal input, not covered by a theorem.
 -/
+
+
+/-! ## 8. CSR rows of conditional constraints, and the whole residual vector / Jacobian -/
+
+/-- **csr_rows_conditional.** For EVERY evaluator state (hence after every add / remove / set_structure history), after
+`set_structure`: the `condition_ndx` / `jac_ndx` strides of `Evaluator::evaluate` and `evaluate_csr_jacobian` make each
+conditional constraint read its own entries — the residual is the function program of the FIRST branch whose condition
+evaluates to 1 (`firstTrue`, characterised by `firstTrue_spec`), the CSR row is that branch's derivative programs, one per
+referenced variable in address order; `col_ndx` and `row_nnz` are the variables' indices and the prefix sums over all
+constraints. Hypotheses: ≥ 1 condition per constraint and some condition holds (`firstTrue_isSome`: true when every
+condition evaluates and the last one is `Float(1)`, as `add_final_expr` makes it). -/
+theorem csr_rows_conditional {α : Type} (O : Ops α) (I : InfVals α) (e e' : Evaluator α)
+    (h : e.setStructure = some e') (hk : ∀ c ∈ e.ifCons, 0 < c.condRpn.length)
+    (hsel : ∀ c ∈ e.ifCons, (firstTrue O (leafValues O I e' c.leaves) c.condRpn).isSome = true) :
+    evalIfRows O I e' e'.st.nConditions e'.cons.length 0 = seqOpt (e.ifCons.map (ifRowRes O I e')) ∧
+    jacIfRows O I e' e'.st.nConditions e'.cons.length 0 0 = ifJacRowsOf O I e' e.ifCons ∧
+    e'.st.colNdx = e.cons.flatMap (fun c => c.jacRpn.map fun p => varIndex e'.vars p.1) ++
+      e.ifCons.flatMap (fun c => c.jacRpn.map fun p => varIndex e'.vars p.1) ∧
+    e'.st.rowNnz = 0 :: sums 0 (e.cons.map (·.jacRpn.length) ++ e.ifCons.map (·.jacRpn.length)) :=
+  setStructure_if_rows O I e e' h hk hsel
+
+/-- the selected branch is the first one whose condition holds; all earlier conditions evaluate and fail -/
+theorem conditional_selects_first_true {α : Type} (O : Ops α) (vals : Nat → α) (rs : List (List Int)) (j : Nat)
+    (h : firstTrue O vals rs = some j) :
+    condHolds O vals (rs.getD j []) ∧ ∀ i, i < j → condFails O vals (rs.getD i []) :=
+  firstTrue_spec O vals rs j h
+
+/-- **csr_rows (full).** `Evaluator::evaluate` returns, in `Constraint.index` order (plain constraints first, then the
+conditional ones, each group in address order), every constraint's own residual; `evaluate_csr_jacobian` returns every
+constraint's own derivative values row after row, with the reported `col_ndx` / `row_nnz`. -/
+theorem csr_rows {α : Type} (O : Ops α) (I : InfVals α) (e e' : Evaluator α)
+    (h : e.setStructure = some e') (hk : ∀ c ∈ e.ifCons, 0 < c.condRpn.length)
+    (hsel : ∀ c ∈ e.ifCons, (firstTrue O (leafValues O I e' c.leaves) c.condRpn).isSome = true)
+    (res resIf : List α)
+    (hres : seqOpt (e.cons.map fun c => evalRpn O (leafValues O I e' c.leaves) c.fnRpn) = some res)
+    (hresIf : seqOpt (e.ifCons.map (ifRowRes O I e')) = some resIf)
+    (jac jacIf : List α) (hjac : jacRowsOf O I e' e.cons = some jac) (hjacIf : ifJacRowsOf O I e' e.ifCons = some jacIf) :
+    e'.evaluate O I = .ok (res ++ resIf) ∧
+    e'.evaluateCsr O I = .ok (jac ++ jacIf,
+      e.cons.flatMap (fun c => c.jacRpn.map fun p => varIndex e'.vars p.1) ++
+        e.ifCons.flatMap (fun c => c.jacRpn.map fun p => varIndex e'.vars p.1),
+      0 :: sums 0 (e.cons.map (·.jacRpn.length) ++ e.ifCons.map (·.jacRpn.length))) := by
+  obtain ⟨p1, p2, _, _⟩ := setStructure_plain_rows O I e e' h
+  obtain ⟨q1, q2, q3, q4⟩ := setStructure_if_rows O I e e' h hk hsel
+  have hset : e'.structureSet = true := (setStructure_indices e e' h).2.2.2.2.2.2.2
+  constructor
+  · simp only [Evaluator.evaluate, hset, Bool.not_true, Bool.false_eq_true, if_false, p1, hres, q1, hresIf]
+  · simp only [Evaluator.evaluateCsr, hset, Bool.not_true, Bool.false_eq_true, if_false, p2, hjac, q2, hjacIf, q3, q4]
+
+
+/-! ## 9. `D` is the analytic derivative over ℝ for all 18 operators, on the interior of the domain -/
+
+/-- **D_is_analytic_derivative_real.** With `realOps` (ℝ, `Real.rpow`, `Real.exp/log/sin/cos/tan/arcsin/arccos/arctan`,
+`|·|`, `sign x = if 0 ≤ x then 1 else −1`; a `LawfulOps` instance, `realOps_lawful`): at every point of the INTERIOR of
+the domain of definition (`interior`: denominators ≠ 0; base of a power > 0 or a natural constant exponent ≥ 1; log
+argument > 0; cos ≠ 0 under tan; |arg| < 1 under asin/acos; and the EXCLUDED points: abs/sign argument ≠ 0, an
+inequality body off its bounds, only the SELECTED branch of an if_else needs to be inside its domain) the function
+`x ↦ eval e [v := x]` has derivative `eval (D v e)`. -/
+theorem D_is_analytic_derivative_real (env : Env ℝ) (v : Nat) (e : Expr) (h : interior env e) :
+    HasDerivAt (fun x => eval realOps (env.setVar v x) e) (eval realOps env (D v e)) (env.var v) :=
+  D_hasDerivAt_real env v e h
+
+/-- **jacobian_entry_is_true_partial_derivative.** Composition with `reverseSd_is_derivative`: over ℝ, for every
+well-formed operator list (repeats allowed) denoting `e`, at every interior point, the value of the expression
+`reverse_sd()[v]` — whose RPN is what the compiled evaluator runs for the Jacobian entry (`row_entries_are_eval_and_derivative`,
+`csr_rows`) — is the true partial derivative ∂e/∂v. -/
+theorem jacobian_entry_is_true_partial_derivative (env : Env ℝ) (ops : OpList) (hwf : wellFormed ops = true)
+    (hcons : consistent ops) (e : Expr) (hden : denote ops = some e) (hdom : sdDomAll ops = true)
+    (d : DerMap) (hsd : reverseSd ops = some d) (v : Nat) (s : SVal) (hj : jacOf d v = some s)
+    (hint : interior env e) :
+    HasDerivAt (fun x => eval realOps (env.setVar v x) e) (evalS realOps env s) (env.var v) := by
+  rw [reverseSd_is_derivative realOps_lawful env ops hwf hcons e hden hdom d hsd v s hj]
+  exact D_hasDerivAt_real env v e hint
+
+/-- non-vacuity: the guarded signed square root plus `exp(sin(log x))` at x = 4 (the unselected branch `−(−x)**0.5` is
+outside its domain there) -/
+example : HasDerivAt (fun x => eval realOps (exEnvReal.setVar 0 x) exGuardReal)
+    (eval realOps exEnvReal (D 0 exGuardReal)) (exEnvReal.var 0) :=
+  D_is_analytic_derivative_real exEnvReal 0 exGuardReal exGuardReal_interior
 
 end Wntr.Aml
